@@ -38,11 +38,26 @@ def src_noisy(n: int, seed: int):
     return [(f"noisy:{seed * 1000003 + i}", gen.noisy(seed * 7 + i, gen.doc(seed * 1000003 + i, "en", langs=langs)), "en") for i in range(n)]
 
 
+import re as _re
+_TAG_BLANK = _re.compile(r"@\s+[^\s@#]")
+
+
+def known_finding_input(s: str) -> bool:
+    """Inputs of the two recorded known findings; generators avoid them, one probe per class keeps each visible (C01 path probe, C04 MC_Tags)."""
+    if R.source_is_path(s):
+        return True             # C01/source-names-existing-path: such a string is not parsed as text at all
+    for l in s.split("\n"):
+        t = l.strip()
+        if t.startswith("@") and _TAG_BLANK.search(_re.split(r"\s#", t)[0]):
+            return True         # C04/tag-blank-after-at
+    return False
+
+
 def record_all(sources, modes=("collect",), listing=False):
     recs = []
     for name, s, dialect in sources:
-        if R.source_is_path(s):
-            continue            # known finding C01/source-names-existing-path: such a string is not parsed as text at all
+        if known_finding_input(s):
+            continue
         for m in modes:
             recs.append(R.record(f"{name}|{m}", s, dialect, m, listing=listing and m == "collect"))
     return recs
